@@ -3,7 +3,7 @@
    array (outer-product) call, cdf of the time profiles. *)
 From Coq Require Import Reals ZArith List Bool Lra Lia.
 From Coquelicot Require Import Coquelicot.
-From Sky Require Import Result Num NumR G_flux M_Flux S_Flux P_Flux P_FluxInt P_FluxObj.
+From Sky Require Import Result Num NumR G_flux M_Flux S_Flux P_Flux P_FluxInt P_FluxObj P_FluxStore.
 Import ListNotations.
 Open Scope R_scope.
 
@@ -415,3 +415,107 @@ Section GaussCdf.
       field. lra.
   Qed.
 End GaussCdf.
+
+(* ---------------------------------------------------------------- audit follow-up *)
+Lemma K_mf_copy x : mf_copy x = x. Proof. reflexivity. Qed.
+Lemma K_mf_copy_with o : mf_copy_with o = match o with Some _ => true | None => false end.
+Proof. destruct o; reflexivity. Qed.
+Lemma K_ffm_if_s a b : ffm_if_s a b = match a, b with Some _, Some _ => true | _, _ => false end.
+Proof. destruct a, b; reflexivity. Qed.
+Lemma K_ffm_if_e a : ffm_if_e a = match a with Some _ => true | None => false end.
+Proof. destruct a; reflexivity. Qed.
+Lemma K_ffm_if_t a : ffm_if_t a = match a with Some _ => true | None => false end.
+Proof. destruct a; reflexivity. Qed.
+(* PointlikeFFM hands exactly the ra / dec getters and setters of its own point profile to IsPointlike *)
+Lemma K_pf_wiring a : pf_get_ra a = a /\ pf_set_ra a = a /\ pf_get_dec a = a /\ pf_set_dec a = a
+                      /\ pf_ra_inst a = a /\ pf_dec_inst a = a.
+Proof. repeat split. Qed.
+
+Section Audit.
+  Variable erfR : R -> R.
+  Notation RN := (RNum erfR).
+
+  Lemma K_pt_call ra dec r d : pt_call RN ra dec r d = true <-> ra = r /\ dec = d.
+  Proof. unfold pt_call. num_R. rewrite andb_true_iff, !Reqb_true. tauto. Qed.
+
+  Theorem s_call_point ra dec r d :
+    s_call RN (Point r d) ra dec = if Req_EM_T ra r then if Req_EM_T dec d then 1 else 0 else 0.
+  Proof.
+    cbn [s_call]. destruct (pt_call RN ra dec r d) eqn:H.
+    - apply K_pt_call in H. destruct H. destruct (Req_EM_T ra r); [|contradiction].
+      destruct (Req_EM_T dec d); [reflexivity|contradiction].
+    - destruct (Req_EM_T ra r); [|reflexivity]. destruct (Req_EM_T dec d); [|reflexivity].
+      assert (pt_call RN ra dec r d = true) by (apply K_pt_call; split; assumption). congruence.
+  Qed.
+
+  (* optional coordinates: the spatial profile counts only when BOTH ra and dec are given *)
+  Theorem ffm_call2_spec s l ra dec E t eu tu :
+    ffm_call2 RN s l ra dec E t eu tu =
+      ffm_call RN s l (match ra, dec with Some a, Some b => Some (a, b) | _, _ => None end) E t eu tu.
+  Proof.
+    unfold ffm_call2, ffm_call. destruct (nth_error s l) as [[| | |Phi0 ls le lt]|]; try reflexivity.
+    destruct (get_s s ls); [|reflexivity]. destruct (get_e s le); [|reflexivity]. destruct (get_t s lt); [|reflexivity].
+    cbn [bind]. rewrite K_ffm_if_s, K_ffm_if_e, K_ffm_if_t.
+    destruct ra, dec, E, t; reflexivity.
+  Qed.
+
+  Local Ltac sp_tac :=
+    repeat (match goal with |- context [mf_changed RN ?v ?c] =>
+              let H := fresh in destruct (mf_changed RN v c) eqn:H; [|apply K_mf_unchanged in H; subst] end;
+            cbn [fst e_get e_set s_get s_set t_get t_set]); try reflexivity;
+    try (exfalso; match goal with H : mf_changed RN ?x ?x = true |- _ => apply K_mf_changed in H; apply H; reflexivity end).
+
+  Theorem pt_set_params ra dec pd :
+    fst (s_set_params RN pd (Point ra dec)) = Point (pick pd nRa ra) (pick pd nDec dec).
+  Proof.
+    unfold s_set_params, set_params_gen, pick. cbn [s_names fold_left fst s_get].
+    destruct (lookup pd nRa) as [a|], (lookup pd nDec) as [b|]; sp_tac.
+  Qed.
+  Theorem ut_set_params tu ts te pd :
+    fst (t_set_params RN pd (UnityT tu ts te)) = UnityT tu (pick pd nTstart ts) (pick pd nTstop te).
+  Proof.
+    unfold t_set_params, set_params_gen, pick. cbn [t_names fold_left fst t_get].
+    destruct (lookup pd nTstart) as [a|], (lookup pd nTstop) as [b|]; sp_tac.
+  Qed.
+  Lemma unity_set_params pd :
+    fst (s_set_params RN pd UnityS) = UnityS /\ (forall eu, fst (e_set_params RN pd (UnityE eu)) = UnityE eu)
+    /\ (forall eu f, fst (e_set_params RN pd (FuncE eu f)) = FuncE eu f).
+  Proof. repeat split. Qed.
+  Lemma phi0_set_params pd Phi0 :
+    fst (set_params_gen RN (fun (x : R) n => if pname_beq n nPhi0 then Some x else None)
+                           (fun (x : R) n v => if pname_beq n nPhi0 then v else x) [nPhi0] pd Phi0)
+      = pick pd nPhi0 Phi0.
+  Proof.
+    unfold set_params_gen, pick. cbn [fold_left fst pname_beq].
+    destruct (lookup pd nPhi0) as [a|].
+    - destruct (mf_changed RN a Phi0) eqn:H; cbn [fst]; [reflexivity|]. apply K_mf_unchanged in H. auto.
+    - assert (H : mf_changed RN Phi0 Phi0 = false) by (apply K_mf_unchanged; reflexivity). rewrite H. reflexivity.
+  Qed.
+
+  (* a MODEL updated through set_params: its view is the model with Phi0 and every component
+     updated by the same dictionary *)
+  Theorem ffm_update s l pd Phi0 ls le lt sp ep tp :
+    nth_error s l = Some (OM Phi0 ls le lt) ->
+    get_s s ls = Ok sp -> get_e s le = Ok ep -> get_t s lt = Ok tp ->
+    exists s' b, obj_set_params RN s l pd = Ok (s', b)
+      /\ view_of s' l = Ok (VM (pick pd nPhi0 Phi0) (fst (s_set_params RN pd sp))
+                               (fst (e_set_params RN pd ep)) (fst (t_set_params RN pd tp))).
+  Proof.
+    intros Hl Hs He Ht.
+    destruct (ffm_set_params_view RN s l pd Phi0 ls le lt sp ep tp Hl Hs He Ht) as (s' & b & H1 & H2).
+    exists s', b. split; [exact H1|]. rewrite H2, phi0_set_params. reflexivity.
+  Qed.
+
+  (* Gaussian constructor / update with the domain of tol spelled out (for tol outside (0,1] the
+     code's sqrt(-2 sigma^2 ln tol) is NaN, Coq's sqrt of a negative number is 0) *)
+  Theorem gauss_new_guarded tu t0 sg tol : 0 < tol <= 1 ->
+    0 <= - 2 * (sg * sg) * ln tol
+    /\ gauss_new RN tu t0 sg tol
+       = Gauss tu (t0 - sqrt (- 2 * (sg * sg) * ln tol)) (t0 + sqrt (- 2 * (sg * sg) * ln tol)) sg tol.
+  Proof.
+    intros [H0 H1]. split; [|apply gauss_new_R].
+    assert (ln tol <= 0).
+    { destruct H1 as [H1| ->]; [|rewrite ln_1; lra]. left. rewrite <- ln_1. apply ln_increasing; assumption. }
+    assert (0 <= sg * sg) by (apply Rle_0_sqr). nra.
+  Qed.
+End Audit.
